@@ -9,11 +9,11 @@ From QV Require Import Sx Strs Fl Machine Cpu Instrs Codec.
 Import ListNotations.
 Open Scope Z_scope.
 
-Definition entry := (list Z * Z * list opk)%type.
-Definition e_name (e : entry) : str := fst (fst e).
-Definition e_op (e : entry) : Z := snd (fst e).
-Definition e_kinds (e : entry) : list opk := snd e.
-Definition e_size (e : entry) : Z := 1 + sumZ (map opk_size (e_kinds e)).
+Definition tentry := (list Z * Z * list opk)%type.
+Definition e_name (e : tentry) : str := fst (fst e).
+Definition e_op (e : tentry) : Z := snd (fst e).
+Definition e_kinds (e : tentry) : list opk := snd e.
+Definition e_size (e : tentry) : Z := 1 + sumZ (map opk_size (e_kinds e)).
 
 Fixpoint nodup_by {A} (eqb : A -> A -> bool) (l : list A) : bool :=
   match l with
@@ -21,8 +21,8 @@ Fixpoint nodup_by {A} (eqb : A -> A -> bool) (l : list A) : bool :=
   | x :: r => negb (existsb (eqb x) r) && nodup_by eqb r
   end.
 
-Definition opcodes_unique (t : list entry) : bool := nodup_by Z.eqb (map e_op t).
-Definition mnemonics_unique (t : list entry) : bool := nodup_by str_eqb (map e_name t).
+Definition opcodes_unique (t : list tentry) : bool := nodup_by Z.eqb (map e_op t).
+Definition mnemonics_unique (t : list tentry) : bool := nodup_by str_eqb (map e_name t).
 
 (* operand values of a decoded instruction, in operand order *)
 Inductive oval := OvZ (z : Z) | OvF (f : fl).
@@ -72,7 +72,7 @@ Fixpoint list_eqb {A} (eqb : A -> A -> bool) (a b : list A) : bool :=
 (* 0 = agrees; 1 = the opcode does not decode; 2 = other mnemonic; 3 = other
    size; 4 = an operand is read with another width/signedness; 5 = the
    decoder accepts fewer operand bytes than the table says *)
-Definition entry_check (e : entry) : Z :=
+Definition entry_check (e : tentry) : Z :=
   let nb := Z.to_nat (e_size e - 1) in
   match decode (e_op e :: repeat 255 nb) with
   | DOk i n =>
@@ -86,7 +86,7 @@ Definition entry_check (e : entry) : Z :=
   | _ => 1
   end.
 
-Definition table_agrees (t : list entry) : bool := forallb (fun e => entry_check e =? 0) t.
+Definition table_agrees (t : list tentry) : bool := forallb (fun e => entry_check e =? 0) t.
 
 Fixpoint zrange (n : nat) (from : Z) : list Z :=
   match n with O => [] | S n' => from :: zrange n' (from + 1) end.
@@ -94,15 +94,15 @@ Fixpoint zrange (n : nat) (from : Z) : list Z :=
 Definition all_bytes : list Z := zrange (Z.to_nat 256) 0.
 
 (* a byte that is no opcode of the table must be rejected by the decoder *)
-Definition unknown_check (t : list entry) (b : Z) : bool :=
+Definition unknown_check (t : list tentry) (b : Z) : bool :=
   if existsb (fun e => e_op e =? b) t then true
   else match decode (b :: repeat 255 16) with DUnknown => true | _ => false end.
 
-Definition unknown_agrees (t : list entry) : bool := forallb (unknown_check t) all_bytes.
+Definition unknown_agrees (t : list tentry) : bool := forallb (unknown_check t) all_bytes.
 
 (* failing entries, for the report: (mnemonic, opcode, code) and stray bytes *)
-Definition failing_entries (t : list entry) : list (str * Z * Z) :=
+Definition failing_entries (t : list tentry) : list (str * Z * Z) :=
   flat_map (fun e => let c := entry_check e in
                      if c =? 0 then [] else [(e_name e, e_op e, c)]) t.
-Definition stray_bytes (t : list entry) : list Z :=
+Definition stray_bytes (t : list tentry) : list Z :=
   filter (fun b => negb (unknown_check t b)) all_bytes.
